@@ -361,11 +361,26 @@ class BlockProcessor:
             block = await OnDiskBlock.streamed_block(hex_hash)
             if not block:
                 break
-            await self.run_with_lock(run_in_thread(self.backup_block, block))
+            await self.run_with_lock(self.backup_and_truncate(block))
 
         logger.info(f'backed up to height {self.state.height:,d}')
         self.backed_up_event.set()
         self.backed_up_event.clear()
+
+    async def backup_and_truncate(self, block):
+        '''Back up the block in a thread, then truncate the header merkle cache.
+
+        MerkleCache is not thread-safe.  The coroutines that read and extend the cache
+        (MerkleCache.branch_and_root, _extend_to, _level_for) run in the event loop's thread,
+        so it is truncated here, in that thread, rather than in the thread that backs up the
+        block: no coroutine can then run between two steps of truncate().  Call with the state
+        lock held (and shielded from cancellation, see run_with_lock) so that no block is
+        advanced between the back-up and the truncation.
+        '''
+        await run_in_thread(self.backup_block, block)
+        # The DB no longer offers the headers backed out to its readers, so an extension of
+        # the cache cannot re-read them.  Header count is 1 more than the height.
+        self.db.header_mc.truncate(self.state.height + 1)
 
     async def _reorg_hashes(self, count):
         '''Return a pair (start, hashes) of blocks to back up during a
